@@ -25,6 +25,7 @@ type Program struct {
 	specs     map[string]*SpecFn
 	lemmas    map[string]*Lemma
 	ifaceCons map[string]*Contract // "Iface.Method" -> contract
+	stable    map[string]bool      // spec functions declared stable (see contracts.go)
 	pures     map[string]bool
 	funcs     map[string]*ssa.Function
 	
@@ -71,7 +72,7 @@ func loadProgram(repo string, overlayContract string, force bool) (*Program, err
 	cfg := &packages.Config{Mode: packages.LoadAllSyntax, Dir: repo, BuildFlags: []string{"-tags=verif"},
 		Env: append(os.Environ(), "GOFLAGS=-mod=mod", "GOPROXY=off", "GOSUMDB=off", "GOTOOLCHAIN=local")}
 	p := &Program{repo: repo, contracts: map[string]*Contract{}, specs: map[string]*SpecFn{}, lemmas: map[string]*Lemma{},
-		ifaceCons: map[string]*Contract{}, pures: map[string]bool{}, funcs: map[string]*ssa.Function{},
+		ifaceCons: map[string]*Contract{}, stable: map[string]bool{}, pures: map[string]bool{}, funcs: map[string]*ssa.Function{},
 		tags: map[string]int{}, comparable: map[string]bool{}, ghostMaps: map[string]string{}, ghostVals: map[string]string{}, guards: map[string]guardInfo{}, lockInvs: map[string]*lockInv{}, interference: interferenceMode, appendLemmas: map[string][]string{}, usedLemmas: map[string]bool{}, fieldInvs: map[string]*Clause{}, elemInvs: map[string]*Clause{}, typeInvs: map[string]*Clause{}, strLits: map[string]string{}, srcLines: map[string][]string{}, impls: map[string][]*ssa.Function{}}
 	// contract files: pkg/ggql/verif_contracts*.go in the tree; the mirror under <verif>/contracts is
 	// injected through an overlay for files the tree lacks (or for all of them in development mode)
